@@ -238,6 +238,14 @@ PAIR_USES = [
     "{% ifchanged %}{% if @1 %}a{% else %}b{% endif %}{% endifchanged %}{% ifchanged %}{% if @2 %}a{% else %}b{% endif %}{% endifchanged %}",
     "{% assign l = @1 | default: nil %}{% assign r = @2 | default: nil %}{{ l == r }}",
 ]
+# the same differential reading for the tags and filters that only the `extra` environment registers
+EXTRA_USES = [
+    "{% translate count: @ %}one{% plural %}many{% endtranslate %}", "{% translate count: @ %}one {{ count }}{% plural %}many {{ count }}{% endtranslate %}", "{% translate you: @ %}hello {{ you }}!{% endtranslate %}",
+    "{% translate you: @, count: 2 %}one {{ you }}{% plural %}many {{ you }}{% endtranslate %}", "{{ 'one' | ngettext: 'many', @ }}", "{{ 'hello %(you)s' | gettext: you: @ }}|", "{{ 'hello %(you)s' | t: you: @ }}|",
+    "{{ 'one %(you)s' | ngettext: 'many %(you)s', 2, you: @ }}|", "{{ 'ctx' | npgettext: 'one', 'many', @ }}", "{% with a: @ %}{% if a %}y{% else %}n{% endif %}{% endwith %}", "{% with a: @ %}[{{ a | default: 'd' }}]{% endwith %}",
+    "{% macro m x %}{% if x %}y{% else %}n{% endif %}{% endmacro %}{% call m @ %}", "{% macro m x: @ %}{% if x %}y{% else %}n{% endif %}{% endmacro %}{% call m %}", "{% macro m x %}[{{ x | default: 'd' }}]{% endmacro %}{% call m x: @ %}",
+    "{{ 'a' if @ else 'b' }}", "{{ @ if false else 'b' }}", "{{ 'a' if true else @ }}", "{% if not @ %}y{% else %}n{% endif %}", "{% if (@ or true) and true %}y{% else %}n{% endif %}",
+]
 PROBE_DATA = {"zero": 0, "os": [{"k": 1}, {"j": 2}, {"k": None}, {"k": False}], "h": {"a": 1, "e2": []}, "xs": [1], "e": [], "eh": {}, "s": "str", "n": 5, "d": {"a": {"b": 1}, "list": ["p"]}}
 
 
@@ -257,6 +265,12 @@ def cases(ctx: core.Ctx):
             if k % ctx.nshards != ctx.shard:
                 continue
             yield {"source": t.replace("@", path), "data": V.enc(PROBE_DATA), "async": k % 4 == 0}
+    for path in MISSING:
+        for t in EXTRA_USES:
+            k += 1
+            if k % ctx.nshards != ctx.shard:
+                continue
+            yield {"source": t.replace("@", path), "data": V.enc(PROBE_DATA), "async": k % 2 == 0, "env": {"extra": True}}
     for p1 in PAIR_PATHS:
         for p2 in PAIR_PATHS:
             for t in PAIR_USES:
